@@ -330,37 +330,48 @@ Fixpoint sweep (s : fstate) (keys : list N) (elapsed : list N) (started woke : l
     end
   end.
 
+(* the receive branch: `(t, data)` has just been taken from the channel *)
+Definition mgr_receive (s0 : fstate) (t : N) (data : rdata) : fstate * fout :=
+  if poisoned s0 then (kill_mgr s0, OPanic (SClient Site_poisoned)) else
+  if negb (amem (c_towers (f_c s0)) t) then (s0, OTick TickSkipAbandoned)
+  else match aget (f_mgr s0) t with
+       | Some r =>
+         if is_idle (r_status r) then
+           if rdata_is_none data then (wake s0 t r, OTick TickWoke) else (s0, OTick TickDroppedForIdle)
+         else (add_pending_appointments s0 t (rdata_set data), OTick TickAdded)
+       | None => (add_pending_appointments s0 t (rdata_set data), OTick TickAdded)
+       end.
+
+(* `self.retriers.retain(..)`: remove_if_failed (drops a failed retrier from WTClient::retriers), keep the
+   startable / running / idle ones *)
+Definition keep_retrier (kv : N * retrier) : bool :=
+  should_start (snd kv) || is_running (r_status (snd kv)) || is_idle (r_status (snd kv)).
+Definition failed_keys (s : fstate) : list N := map fst (filter (fun kv => is_failed (r_status (snd kv))) (f_mgr s)).
+Definition retain_state (s : fstate) : fstate :=
+  let c := f_c s in
+  set_mgr (set_c s (with_retriers c (aretain (fun k => negb (memN k (failed_keys s))) (c_retriers c))))
+          (filter keep_retrier (f_mgr s)).
+
+(* the Empty branch *)
+Definition mgr_sweep (s : fstate) (elapsed : list N) : fstate * fout :=
+  (* remove_if_failed needs the lock only for a failed retrier *)
+  if poisoned s && negb (match failed_keys s with [] => true | _ => false end)
+  then (kill_mgr s, OPanic (SClient Site_poisoned)) else
+  let s1 := retain_state s in
+  let todo := existsb (fun kv => should_start (snd kv) || (is_idle (r_status (snd kv)) && memN (fst kv) elapsed)) (f_mgr s1) in
+  if poisoned s1 && todo then (kill_mgr s1, OPanic (SClient Site_poisoned)) else
+  match sweep s1 (map fst (f_mgr s1)) elapsed [] [] with
+  | (s2, _, _, Some site) => (s2, OPanic site)
+  | (s2, started, woke, None) => (s2, OTick (TickSwept started woke))
+  end.
+
 (* ONE iteration of manage_retry's loop.  `elapsed` = the towers whose idle retrier has been idle
    for longer than the auto-retry delay. *)
 Definition f_manager_tick (s : fstate) (elapsed : list N) : fstate * fout :=
   if f_mgr_dead s then (s, OTick TickDead) else
   match f_chan s with
-  | (t, data) :: rest =>
-    let s0 := set_chan s rest in
-    if poisoned s0 then (kill_mgr s0, OPanic (SClient Site_poisoned)) else
-    if negb (amem (c_towers (f_c s0)) t) then (s0, OTick TickSkipAbandoned)
-    else match aget (f_mgr s0) t with
-         | Some r =>
-           if is_idle (r_status r) then
-             if rdata_is_none data then (wake s0 t r, OTick TickWoke) else (s0, OTick TickDroppedForIdle)
-           else (add_pending_appointments s0 t (rdata_set data), OTick TickAdded)
-         | None => (add_pending_appointments s0 t (rdata_set data), OTick TickAdded)
-         end
-  | [] =>
-    (* retain: remove_if_failed (needs the lock only for a failed retrier), keep startable / running / idle *)
-    if poisoned s && existsb (fun kv => is_failed (r_status (snd kv))) (f_mgr s)
-    then (kill_mgr s, OPanic (SClient Site_poisoned)) else
-    let failed := map fst (filter (fun kv => is_failed (r_status (snd kv))) (f_mgr s)) in
-    let c := f_c s in
-    let c1 := with_retriers c (aretain (fun k => negb (memN k failed)) (c_retriers c)) in
-    let kept := filter (fun kv => should_start (snd kv) || is_running (r_status (snd kv)) || is_idle (r_status (snd kv))) (f_mgr s) in
-    let s1 := set_mgr (set_c s c1) kept in
-    let todo := existsb (fun kv => should_start (snd kv) || (is_idle (r_status (snd kv)) && memN (fst kv) elapsed)) kept in
-    if poisoned s1 && todo then (kill_mgr s1, OPanic (SClient Site_poisoned)) else
-    match sweep s1 (map fst kept) elapsed [] [] with
-    | (s2, _, _, Some site) => (s2, OPanic site)
-    | (s2, started, woke, None) => (s2, OTick (TickSwept started woke))
-    end
+  | (t, data) :: rest => mgr_receive (set_chan s rest) t data
+  | [] => mgr_sweep s elapsed
   end.
 
 (* ================= retrier.rs: the spawned task ================= *)
